@@ -75,6 +75,9 @@ def render(history, version):
     for k, (kind, arg) in enumerate(history):
         if kind == "ins":
             text = 'PRINT "v%d.%d"' % (arg, k)
+            # a line is whatever follows the number: also nothing but separators, or an empty remark -- only a bare number deletes
+            if k % 7 == 3:
+                text = [":", ": :", "'", "REM", "::"][(k // 7) % 5]
             calls.append(sess.E("%d %s" % (arg, text)))
             if arg <= MAXLN:
                 store[arg] = text
